@@ -638,8 +638,11 @@ static const char *MEMBERS[] = { "kty", "alg", "use", "key_ops", "kid", "n", "e"
 #define NMEM 17
 static const char *SHAPES[] = { NULL /* absent */, "null", "true", "0", "1.5", "[]", "[\"x\"]", "{}", "\"\"", "\"!\"", "\"A\"", "\"AAAA\"", "\"-_-_\"", "\"RS256\"", "\"PS256\"", "\"P-256\"",
 				/* text that is valid JSON/UTF-8 but not base64url: non-ASCII characters (2- and 3-byte), leading and embedded padding */
-				"\"\\u00b0\\u00b0\\u00b0\\u00b0\"", "\"AA\\u20acA\"", "\"==\"", "\"=AAA\"", "\"AAAA=AAAA\"" };
-#define NSHAPE 21
+				"\"\\u00b0\\u00b0\\u00b0\\u00b0\"", "\"AA\\u20acA\"", "\"==\"", "\"=AAA\"", "\"AAAA=AAAA\"",
+				/* well-formed but over-long values: 48 and 69 octets (longer than any EC coordinate of the templates) */
+				"\"QUJDQUJDQUJDQUJDQUJDQUJDQUJDQUJDQUJDQUJDQUJDQUJDQUJDQUJDQUJDQUJD\"",
+				"\"QUJDQUJDQUJDQUJDQUJDQUJDQUJDQUJDQUJDQUJDQUJDQUJDQUJDQUJDQUJDQUJDQUJDQUJDQUJDQUJDQUJDQUJDQUJD\"" };
+#define NSHAPE 23
 static const char *shape_label(int i) { return SHAPES[i] ? SHAPES[i] : "<absent>"; }
 
 static json_t *TEMPL[12];
@@ -814,11 +817,13 @@ static void enumerate_c07(void)
 	if (!vf_thorough)
 		for (int t = 0; t < NTEMPL; t++)
 			for (int m1 = 0; m1 < NMEM; m1++) {
-				if (!vf_case("JWK %s with member %s and every other member absent / null / true / a number", templ_name[t], MEMBERS[m1]))
+				if (!vf_case("JWK %s with member %s and every other member absent / null / true / a number / 3 octets / 48 octets / 69 octets", templ_name[t], MEMBERS[m1]))
 					continue;
+				static const int qs[] = { 0, 1, 2, 3, 11 /* "AAAA" */, 21 /* 48 octets */, 22 /* 69 octets */ };
 				for (int m2 = m1 + 1; m2 < NMEM; m2++)
-					for (int s1 = 0; s1 < 4; s1++)
-						for (int s2 = 0; s2 < 4; s2++) {
+					for (int i1 = 0; i1 < 7; i1++)
+						for (int i2 = 0; i2 < 7; i2++) {
+							int s1 = qs[i1], s2 = qs[i2];
 							char *doc = deviate(TEMPL[t], m1, s1, m2, s2);
 							c07_case_doc(doc, strlen(doc), 1u << EP_CREATE, 1);
 							free(doc);
